@@ -213,6 +213,7 @@ func cmdCheck(args []string) int {
 		}
 	}
 	kfFails, kfPrinted := map[string]bool{}, map[string]bool{}
+	replayMisses := map[string]int{}
 	for _, v := range vs {
 		if v.Status != "unsat" && !v.Obl.Smoke && !v.Obl.Canary {
 			kfFails[stableName(v.Obl.Name)] = true
@@ -279,12 +280,22 @@ func cmdCheck(args []string) int {
 		}
 		extra["solver_output"] = firstLines(v.Output, 6)
 		confirmed := false
-		if v.Model != nil {
+		// replays are `go test` runs of 10-30 s each and run one after the other: after two attempts for one
+		// function that did not confirm, further failed obligations of that function are reported without a replay
+		// (a change that refutes dozens of obligations of one function otherwise makes the failing run take minutes)
+		skipReplay := replayMisses[v.Fn.Key] >= 2
+		if skipReplay {
+			extra["replay"] = "not attempted: two earlier replay attempts for this function did not reproduce a failure"
+		}
+		if v.Model != nil && !skipReplay {
 			rr := w.replay(v, *repo, replayDir)
 			extra["replay"] = rr
 			confirmed = rr.Confirmed
+			if !confirmed {
+				replayMisses[v.Fn.Key]++
+			}
 		}
-		if !confirmed && v.Fn.Con != nil && v.Fn.Fn != nil {
+		if !confirmed && !skipReplay && v.Fn.Con != nil && v.Fn.Fn != nil {
 			// replay seeds from the contract file (used only to find a concrete failing input)
 			for wi, wm := range v.Fn.Con.Witnesses {
 				args, ok := w.witnessArgs(v.Fn, wm)
@@ -297,6 +308,9 @@ func cmdCheck(args []string) int {
 					confirmed = true
 					break
 				}
+			}
+			if !confirmed && (len(v.Fn.Con.Witnesses) > 0 || len(v.Fn.Con.ReplayGo) > 0) {
+				replayMisses[v.Fn.Key]++
 			}
 			if !confirmed {
 				for ri, body := range v.Fn.Con.ReplayGo {
